@@ -96,8 +96,11 @@ def check(ctx, run):
                 continue
             src = vs[d[0][2]]
             kinds.setdefault(src, set()).add(p.ret[1][2])
-            if src == 'Number' and len(d) > 1:
+            if src == 'Number' and len(d) > 1 and d[1][2] < len(ns):
                 nv = ns[d[1][2]]
+                if not p.ret[2]:
+                    nums[nv] = (f'the constant {p.ret[1][2]}', [])
+                    continue
                 inner = deref_all(p.ret[2][0])
                 how = canon(inner[1]).split('::')[-1] if inner[0] == 'call' else show(inner)[:30]
                 if is_call(inner, 'Option::unwrap') and inner[2] and is_call(inner[2][0], 'Number::from_f64'):
